@@ -178,6 +178,13 @@ theorem gen_bn_laws : BnLaws genBn :=
   ⟨bn_cfac, bn_rpx1, bn_rpx2, fun f n1 n2 lx ly => (bn_shape_roundtrip f n1 n2 lx ly).1,
    fun f n1 n2 lx ly => (bn_shape_roundtrip f n1 n2 lx ly).2, bn_all_deleted⟩
 
+/-- **load_dispatch_table** (round 8): `load_file_or_hdu`, through which compress, expand (and, via expand,
+    load_image_band) take their input, uses an HDUList as it is and OPENS every kind of file name — a `str`, a
+    `pathlib.Path`, any other `os.PathLike` — (read off the regenerated isinstance chain; "file or in-memory HDU
+    input" in the property's quantifier does not say which type names the file) -/
+theorem load_dispatch_table :
+    Gen.C15.loadAction 0 = 0 ∧ Gen.C15.loadAction 1 = 1 ∧ Gen.C15.loadAction 2 = 1 := by decide
+
 /-! ### The round trip under study -/
 
 /-- `expand(compress(img, f))` with the regenerated index arithmetic, for node-coordinate functions
